@@ -26,6 +26,11 @@ pub enum Hint {
     Fixed(usize),
     /// an inconsistent hint whose lower bound exceeds its upper bound: (lo, Some(hi)) with lo > hi - it rules every length out
     Inverted(usize, usize),
+    /// counts down from a claimed total `k` as items are yielded: (0, Some(k - yielded)). Reaches (0, Some(0)) after k items
+    /// whatever the source still holds - a lie when it holds more than k
+    Countdown(usize),
+    /// the same with an exact claim: (k - yielded, Some(k - yielded))
+    CountdownExact(usize),
 }
 
 #[derive(Default, Debug)]
@@ -99,6 +104,11 @@ impl<T> Iterator for ScriptIter<T> {
             Hint::LieHigh => (r + 1, Some(r + 1)),
             Hint::Fixed(k) => (k, Some(k)),
             Hint::Inverted(lo, hi) => (lo, Some(hi)),
+            Hint::Countdown(k) => (0, Some(k.saturating_sub(self.probe.yielded.get()))),
+            Hint::CountdownExact(k) => {
+                let left = k.saturating_sub(self.probe.yielded.get());
+                (left, Some(left))
+            }
         }
     }
 }
@@ -111,6 +121,8 @@ impl Hint {
             Hint::LieHigh => false,
             Hint::Fixed(k) => *k == r,
             Hint::Inverted(..) => false,
+            Hint::Countdown(k) => *k >= r,
+            Hint::CountdownExact(k) => *k == r,
             _ => true,
         }
     }
@@ -126,6 +138,8 @@ impl Hint {
             Hint::LieHigh => (r + 1, Some(r + 1)),
             Hint::Fixed(k) => (*k, Some(*k)),
             Hint::Inverted(lo, hi) => (*lo, Some(*hi)),
+            Hint::Countdown(k) => (0, Some(*k)),
+            Hint::CountdownExact(k) => (*k, Some(*k)),
         };
         lo > n || hi.map(|h| h < n).unwrap_or(false)
     }
